@@ -94,7 +94,13 @@ func (c *checkSchema) checkType(name string, typ ischema.Type, ss map[string]isc
 
 		// Return an error with the full set of bytes of the root schema.
 		if jErr, ok := r.(kit.JSchemaError); ok {
-			jErr.SetFile(typ.RootFile)
+			if jErr.Filename() == "" {
+				// The error already knows its file when it was created from a
+				// lexeme. That file can differ from the file of the checked type:
+				// a property inherited through "allOf" is written in the file of
+				// the parent type.
+				jErr.SetFile(typ.RootFile)
+			}
 			jErr.SetIndex(bytes.Index(jErr.Index()) + typ.Begin)
 			if len(name) != 0 && name[0] != '#' {
 				// The generated name of an unnamed type (a set of rules inside
